@@ -178,6 +178,10 @@ def check_roles(ctx, cls, pred, helper):
             "collective_saving": lambda ex: abstract_scorer(ex, ctx.P, SAV, "collective_saving"),
             "point_saving": lambda ex: abstract_scorer(ex, ctx.P, SAV, "point_saving", min_size=NF.const(1)),
         }
+        # a point penalty other than the default: "the point penalty for point anomalies" is then distinguishable from
+        # the sparse family that collective anomalies always use
+        if "point_penalty" in [a.arg for a in ctx.P.lookup_method(cls, "__init__").node.args.args]:
+            ov["point_penalty"] = lambda ex: StrV("dense")
         kw = symbolic_hyperparams(ex, ctx.P, cls, ov)
         obj = ex.new_object(cls, [], kw)
         obj.fields["_is_fitted"] = Num(None, (), "bool", cond=Cond.const(True))
@@ -231,8 +235,8 @@ def check_roles(ctx, cls, pred, helper):
             okargs = nf_equal(bb["n"].nf, n) and nf_equal(bb["p"].nf, pp) and nf_equal(kparam.nf, app("param_size", f"{role}_saving", NF.const(1))) and nf_equal(bb["scale"].nf, sym(scale_name))
         except Exception:  # noqa: BLE001
             okargs = False
-        want_fam = "sparse_mvcapa_penalty"
-        ctx.check(src.data["family"] == want_fam, rule, f"{role}|family", src.loc(), f"the subset of a {role} anomaly is inferred with the sparse penalty family" + (" (the point penalty)" if role == "point" else ""), found=src.data["family"], expected=want_fam)
+        want_fam = "sparse_mvcapa_penalty" if role == "collective" else "dense_mvcapa_penalty"
+        ctx.check(src.data["family"] == want_fam, rule, f"{role}|family", src.loc(), "the subset of a collective anomaly is inferred with the sparse penalty family" if role == "collective" else "the subset of a point anomaly is inferred with the CONFIGURED point penalty (here point_penalty='dense'), the one the dynamic programme charged", found=src.data["family"], expected=want_fam)
         ctx.check(okargs, rule, f"{role}|family-arguments", src.loc(), f"that family is called with (n, p, {role} parameters per variable, scale={role}_penalty_scale)", found={k: valkey(v)[:50] for k, v in bb.items()})
     roles = sorted(str(getattr([v for v in e.data["bound"].values() if isinstance(v, ListV)][0], "role", None)) for e in comp if [v for v in e.data["bound"].values() if isinstance(v, ListV)])
     ctx.check(roles == ["collective", "point"], rule, "both-kinds", pred.loc(), "both the collective and the point anomalies get their affected columns", found=roles)
